@@ -115,3 +115,60 @@ for sid, (prop, what, needs, flags, caught, note) in M2.items():
     }
     json.dump(meta, open(os.path.join(d, 'meta.json'), 'w'), indent=1)
 print(len(M2), 'round-2 meta files written')
+
+# ---- third round -------------------------------------------------------------------------------------------------
+M3 = {
+ 'C01E': ('C01', 'sub2 returns early when the asm loop consumed both operands, skipping the underflow assert', 'needs equal digit counts that are a non-zero multiple of 5 and a < b: wraps instead of panicking', '', ['C01', 'C10', 'C14'], ''),
+ 'C01F': ('C01', 'BigInt - iN written as self + other.wrapping_neg()', 'needs the scalar exactly i32/i64/isize/i128::MIN in the binary - forms', '', ['C01', 'C10'], ''),
+ 'C02E': ('C02', 'mul3 pops at most two high zero digits instead of normalising', 'needs zero times a u128/i128 scalar >= 2^64 (empty left slice): non-canonical zero', '', ['C02', 'C04'], ''),
+ 'C02F': ('C02', 'mac3 picks shorter/longer before stripping low zero digits', 'needs a factor with whole low zero digits that is longer as stored but shorter after stripping, other factor 33..256 digits: panic', '', ['C02', 'C14'], ''),
+ 'C03E': ('C03', 'by-value div_rem strips low zero digits of the divisor and loses the dividend low digits in the remainder', 'needs by-value path (val/val, u128/i128 scalars >= 2^64), divisor with zero low digit(s), dividend with non-zero low digits', '', ['C03', 'C10'], ''),
+ 'C03F': ('C03', 'div_rem_ref tests the zero dividend before the zero divisor', 'needs 0 / 0 through the by-reference entry points', '', ['C03', 'C10', 'C14'], ''),
+ 'C04E': ('C04', 'same as C02E (written independently)', 'see C02E', '', ['C04', 'C10'], ''),
+ 'C04F': ('C04', 'BigInt::clone_from skips the magnitude copy for a zero source', 'needs clone_from with a zero source into a non-zero destination: (NoSign, stale digits)', '', ['C04'], ''),
+ 'C05E': ('C05', 'inv_mod_alt returns 1 for a low modulus digit of 1 (forgets the negation)', 'needs odd modulus >= 2 digits whose lowest digit is exactly 1 (2^64+1, k*2^64+1)', '', ['C05'], ''),
+ 'C05F': ('C05', 'BigInt::modpow precondition asserts demoted to debug_assert', 'needs release build and a negative exponent', '--release', ['C05', 'C14'], ''),
+ 'C06E': ('C06', 'from_radix_be packs aligned power-of-two digits with chunks anchored at the wrong end', 'needs from_radix_be, radix 2/4/16/256 and more than one word of digits not a multiple of the digits per word', '', ['C06'], ''),
+ 'C06F': ('C06', 'case folding with b | 0x20 accepts control bytes 0x10..0x19 as digits', 'needs an input string containing U+0010..U+0019', '', ['C06'], 'MISSED at first: the whole byte alphabet (every byte 0..=255 before/between/after digits, every text radix) added'),
+ 'C07E': ('C07', 'BigInt >>= drops the NoSign reset when the value is shifted down to zero', 'needs positive value, the assigning form and a shift >= bits', '', ['C07', 'C04'], ''),
+ 'C07F': ('C07', 'by-value BigUint << moves whole digits in place in the wrong direction when spare capacity exists', 'needs by-value/assign form, k/64 >= 1, more digits than k/64 and spare capacity > k/64 (a capacity condition)', '', ['C07', 'C04', 'C10'], 'caught because every form is also run on an operand with slack capacity'),
+ 'C08E': ('C08', 'BigUint::from_i128 fast path skips the sign check for values fitting i64', 'needs i128 scalar in [i64::MIN, -1]', '', ['C08'], ''),
+ 'C08F': ('C08', 'to_f32 narrows to u32 with the sticky bit read from the unaligned mantissa', 'needs a one-digit magnitude below 2^63 exactly half-way between two f32 with even lower neighbour (2^24+1)', '', ['C08'], ''),
+ 'C09E': ('C09', 'BigInt::new no longer clears the magnitude for NoSign', 'needs BigInt::new(NoSign, non-zero digits)', '', ['C09', 'C04'], 'MISSED at first: NoSign with a NON-zero payload was only generated in the thorough tier: now in every tier and in the C04 constructor routes'),
+ 'C09F': ('C09', 'word-at-a-time twos_complement_le re-arms a dead carry', 'needs little-endian signed forms, >= 17 bytes with a whole aligned 0xff group above a non-zero low group', '', ['C09', 'C04'], ''),
+ 'C10E': ('C10', 'BigInt >>= resets the sign before the rounding increment', 'needs negative value, assigning form, shift removing every significant bit: (NoSign, 1)', '', ['C10', 'C07'], ''),
+ 'C10F': ('C10', 'trait CheckedDiv for BigInt uses div_floor', 'needs the trait method (not the inherent one), opposite signs and a non-zero remainder', '', ['C10', 'C03'], ''),
+ 'C11E': ('C11', 'cbrt decides "fits in f64" by bit length instead of is_finite()', 'needs std and a 1024-bit value within 2^970 of 2^1024: unwrap on None', '', ['C11', 'C16', 'C14'], ''),
+ 'C11F': ('C11', 'no_std: climb phase of fixpoint compiled out + tighter power-of-two guess', 'needs no_std, nth_root n >= 4, bit length k*n+1: silently too small', '--no-default-features', ['C11', 'C16'], ''),
+ 'C12E': ('C12', 'top-down scan uses exp.next_power_of_two() which overflows', 'needs an odd exponent with the top bit of its type set (u8 129..255 any base; wider types with bases 0, +-1)', '', ['C12', 'C14'], ''),
+ 'C12F': ('C12', 'powsign simplified + from_parts without normalisation: 0^even = (Plus, 0)', 'needs BigInt base 0 and an even exponent >= 2', '', ['C12', 'C04'], ''),
+ 'C13E': ('C13', 'extended_gcd_lcm zero-operand shortcut always returns coefficient +1', 'needs extended_gcd_lcm with exactly one zero operand and the other negative', '', ['C13'], ''),
+ 'C13F': ('C13', 'BigUint::dec in-place borrow ripple leaves a zero top digit', 'needs dec on exactly 2^(64k)', '', ['C13', 'C04'], ''),
+ 'C14E': ('C14', 'cbrt scaling constant off by one: infinite recursion -> stack overflow', 'needs cbrt / nth_root(3) of a value with 1024+3k bits whose leading 54 bits are ones', '', ['C14', 'C11'], 'process death (SIGABRT) attributed via the BEGIN marker'),
+ 'C14F': ('C14', 'by-value Pow lost its exp == 0 guard: the squaring loop never ends', 'needs exponent 0 through a by-value form', '', ['C14', 'C12'], 'bases >= 2 exhaust the address-space cap (SIGABRT); bases 0/1 spin and are now cut by the per-command CPU watchdog'),
+ 'C15E': ('C15', 'div_rem_core trims leading zeros through a raw pointer without a lower bound', 'needs multi-digit divisor and an exactly zero remainder: reads the 8 bytes in front of the heap block', '', ['C15'], 'value oracles silent (correct); SIGSEGV in guard-start mode'),
+ 'C15F': ('C15', 'to_str_radix fast path lets radix 64/128/256 through to from_utf8_unchecked', 'needs to_str_radix(64|128|256) on a value with a digit >= 41: String with invalid UTF-8', '', ['C15', 'C06', 'C14'], 'MISSED by C15 at first (C06/C14 reported the missing panic): C15 now also calls out-of-range radices and flags any returned non-ASCII String'),
+ 'C16E': ('C16', 'same as C11E (written independently)', 'see C11E', '', ['C16', 'C11', 'C14'], ''),
+ 'C16F': ('C16', 'sub2rev surplus-digit check demoted to debug_assert', 'needs release profile and small - big through sub2rev forms', '--release', ['C16', 'C14'], ''),
+ 'C17E': ('C17', 'serializer identifies the top digit by value', 'needs top 64-bit digit below 2^32 and a lower digit with the same value (2^64+1)', '--features serde', ['C17'], 'MISSED at first: repeated-digit values added to the special-value pool'),
+ 'C17F': ('C17', 'cautious() rounds the raw hint before capping: overflow for usize::MAX', 'needs size_hint == usize::MAX and overflow checks on (debug)', '--features serde', ['C17'], ''),
+ 'C18E': ('C18', 'gen_biguint native buffer one digit short for bit_size = 32 mod 64', 'needs bit sizes 32, 96, 160 ...', '--features rand', ['C18', 'C15'], ''),
+ 'C18F': ('C18', 'rejection loop capped at 32 retries with a fold-back fallback', 'needs an RNG stream forcing >= 32 consecutive rejections', '--features rand', ['C18'], 'MISSED at first: forced rejection runs were 1, 2, 5 long; now also 31, 32, 33, 64, 200'),
+ 'C19E': ('C19', 'signum returns BigInt{sign, 1}: (NoSign, 1) for zero', 'needs signum of zero', '', ['C19', 'C04'], ''),
+ 'C19F': ('C19', 'is_positive written as !is_negative', 'needs is_positive on zero', '', ['C19'], ''),
+ 'C20E': ('C20', '*= builds the product in place (long multiplication) when the receiver has spare capacity', 'needs the compound-assignment form and spare capacity >= len(a)+len(b)+1 (a buffer condition)', 'RUSTFLAGS="--cfg num_bigint_verif"', ['C20'], 'caught by the `workas` stage (x *= &b into a receiver with slack) added when the report arrived'),
+ 'C20F': ('C20', 'sparse multiplier (>= half zero digits) dispatched to long multiplication', 'needs a factor with at least half of its digits zero as the shorter / right-hand operand', 'RUSTFLAGS="--cfg num_bigint_verif"', ['C20'], 'caught by the absolute clause (4096 x 4096 < n^2/4) on dense x sparse operands; the doubling clause is not applied to sparse operands because the unchanged tree itself reaches 3.3-3.7 there'),
+}
+for sid, (prop, what, needs, flags, caught, note) in M3.items():
+    d = os.path.join(V, 'seeded', sid)
+    if not os.path.isdir(d):
+        continue
+    meta = {
+        'id': sid, 'round': 3, 'breaks_property': prop, 'change': what, 'needs_to_manifest': needs,
+        'origin': 'fresh third-round sub-agent given the property text, its own scratch worktree and the list of earlier ideas to avoid (nothing from /verif)',
+        'confirmed_by_me': {'how': 'tools/confirm_seed.sh %s %s' % (sid, flags), 'result': 'clean_demo=PASS suite_with_patch=PASS demo_with_patch=FAIL'},
+        'demo_flags': flags, 'detected_by_quick_checks': caught, 'note': note,
+        'how_run_against_checks': 'tools/trymut.sh %s seeded/%s/patch.diff quick %s' % (sid, sid, ' '.join(caught)),
+    }
+    json.dump(meta, open(os.path.join(d, 'meta.json'), 'w'), indent=1)
+print(len(M3), 'round-3 meta files written')
